@@ -293,12 +293,13 @@ struct Phases {
     flat: u64,
     huge: u64,
     mixed: u64,
+    entry: u64,
 }
 
 fn phases(tier: Tier) -> Phases {
     match tier {
-        Tier::Quick => Phases { exhaustive_len: 4, sampled: 200_000, random: 40_000, nested: 7 * 40, programs: 4_000, flat: 400, huge: 8, mixed: 60_000 },
-        Tier::Thorough => Phases { exhaustive_len: 6, sampled: 0, random: 800_000, nested: 7 * 40, programs: 100_000, flat: 8_000, huge: 64, mixed: 1_500_000 },
+        Tier::Quick => Phases { exhaustive_len: 4, sampled: 200_000, random: 40_000, nested: 7 * 40, programs: 4_000, flat: 400, huge: 8, mixed: 60_000, entry: (crate::gen::text::TEMPLATES * 40) as u64 },
+        Tier::Thorough => Phases { exhaustive_len: 6, sampled: 0, random: 800_000, nested: 7 * 40, programs: 100_000, flat: 8_000, huge: 64, mixed: 1_500_000, entry: (crate::gen::text::TEMPLATES * crate::gen::text::VARIANTS * 40) as u64 },
     }
 }
 
@@ -395,7 +396,7 @@ impl Property for C12 {
     }
     fn cases(&self, tier: Tier) -> u64 {
         let p = phases(tier);
-        seq_space(15, p.exhaustive_len) + p.sampled + p.random + p.nested + p.programs + p.flat + p.huge + p.mixed
+        seq_space(15, p.exhaustive_len) + p.sampled + p.random + p.nested + p.programs + p.flat + p.huge + p.mixed + p.entry
     }
     fn rule(&self) -> String {
         format!(
@@ -461,6 +462,40 @@ impl Property for C12 {
                         let which = (i as usize) % 7;
                         let depth = DEPTHS[(i as usize) / 7];
                         ("nested", nested_kinds(which, depth), &all_entries[..1])
+                    } else if i - p.nested >= p.programs + p.flat + p.huge + p.mixed {
+                        // The public entry point `oal_syntax::parse` on short nested texts (by depth,
+                        // shallow first): whatever it does with the memo table for small inputs, the
+                        // work must stay small. Its counters are not reachable, so CPU time of this
+                        // thread stands in: two seconds for a text of a few hundred bytes is
+                        // 10 000 times what the unchanged tree needs.
+                        let k = (i - p.nested - p.programs - p.flat - p.huge - p.mixed) as usize;
+                        let t = crate::gen::text::TEMPLATES;
+                        let (which, depth, variant) = (k % t, (k / t) % 40 + 1, k / (t * 40));
+                        let text = crate::gen::text::nested_template_variant(which, depth, variant);
+                        let t0 = crate::engine::own_cpu_ns();
+                        let _ = oal_syntax::parse::<_, oal_compiler::tree::Core>(crate::oal::locator("main.oal"), text.clone());
+                        let cpu_ms = (crate::engine::own_cpu_ns() - t0) / 1_000_000;
+                        let mut r = CaseReport::default();
+                        r.hash = {
+                            use std::hash::{Hash, Hasher};
+                            let mut h = std::collections::hash_map::DefaultHasher::new();
+                            text.hash(&mut h);
+                            h.finish()
+                        };
+                        r.evaluations = 1;
+                        r.nontrivial = depth >= 2;
+                        r.label("phase:parse-entry");
+                        r.max("parse_entry_cpu_ms", cpu_ms);
+                        if cpu_ms > 2_000 {
+                            r.fail(Failure::new(
+                                "c12:parse-entry-superlinear-time",
+                                format!("oal_syntax::parse took {cpu_ms} ms of CPU on a text of {} bytes nested {depth} deep (template {which}, variant {variant})", text.len()),
+                            ));
+                        }
+                        if ctx.want_rendered || r.failure.is_some() {
+                            r.rendered = Some(json!({"phase": "parse-entry", "text": text}));
+                        }
+                        return r;
                     } else if i - p.nested >= p.programs + p.flat + p.huge {
                         let (v, depth) = mixed_kinds(tape);
                         levels = Some(depth);
@@ -553,6 +588,17 @@ impl Property for C12 {
         r
     }
     fn replay(&self, case: &Value) -> Option<Result<(), Failure>> {
+        if case.get("phase").and_then(|p| p.as_str()) == Some("parse-entry") {
+            let text = case.get("text")?.as_str()?.to_owned();
+            let t0 = crate::engine::own_cpu_ns();
+            let _ = oal_syntax::parse::<_, oal_compiler::tree::Core>(crate::oal::locator("main.oal"), text.clone());
+            let cpu_ms = (crate::engine::own_cpu_ns() - t0) / 1_000_000;
+            return Some(if cpu_ms > 2_000 {
+                Err(Failure::new("c12:parse-entry-superlinear-time", format!("oal_syntax::parse took {cpu_ms} ms of CPU on a text of {} bytes", text.len())))
+            } else {
+                Ok(())
+            });
+        }
         let names: Vec<String> = serde_json::from_value(case.get("kinds")?.clone()).ok()?;
         let kinds: Vec<TK> = names.iter().map(|n| ALL_KINDS.iter().copied().find(|k| format!("{k:?}") == *n)).collect::<Option<Vec<_>>>()?;
         if case.get("phase").and_then(|p| p.as_str()) == Some("huge") {
